@@ -25,6 +25,7 @@
 #include <fcppt/container/bitfield/std_hash.hpp>
 #include <fcppt/container/bitfield/underlying_value.hpp>
 
+#include <bitset>
 #include <cstdint>
 #include <cstdio>
 #include <functional>
@@ -97,6 +98,9 @@ VF_ENUM(e16_u16, std::uint16_t, 16)
 VF_ENUM(e17_i16, std::int16_t, 17)
 VF_ENUM(e33_u64, std::uint64_t, 33)
 VF_ENUM(e65_u8, std::uint8_t, 65)
+// more enumerators than an 8-bit word type can count (positions beyond 255), and than the 128-bit model mask holds:
+// judged against std::bitset in large_enum<>
+VF_ENUM(e300_u16, std::uint16_t, 300)
 
 enum method : unsigned
 {
@@ -1232,6 +1236,95 @@ void all_enums()
 #define VF_IN_SLICE(i) (VF_SLICE == (i) || VF_SLICE == -2)
 }
 
+// ---- enums with more enumerators than the model mask: a std::bitset model, seeded random subsets
+template <class E, unsigned N, class Word>
+struct large_enum
+{
+  using bf = fcppt::container::bitfield::object<E, Word>;
+  using bits = std::bitset<N>;
+  static bf build(bits const &m, unsigned how)
+  {
+    bf r = bf::null();
+    if (how == 0)
+    {
+      for (unsigned i = 0; i < N; ++i)
+        if (m[i])
+          r.set(static_cast<E>(i), true);
+    }
+    else if (how == 1)
+      r = fcppt::container::bitfield::init<bf>([&m](E const e) { return m[static_cast<unsigned>(e)]; });
+    else
+    {
+      r = ~bf::null();
+      for (unsigned i = 0; i < N; ++i)
+        if (!m[i])
+          r[static_cast<E>(i)] = false;
+    }
+    return r;
+  }
+  static bits read(bf const &b)
+  {
+    bits r;
+    for (unsigned i = 0; i < N; ++i)
+      r[i] = b.get(static_cast<E>(i));
+    return r;
+  }
+  static void run()
+  {
+    std::string const e = std::string("large-enum/") + enum_name<E>::get() + "," + wn<Word>();
+    if (!vf::entry_enabled(e))
+      return;
+    vf::set_entry(e);
+    std::uint64_t const total = vf::tier<std::uint64_t>(300, 30000);
+    for (std::uint64_t h = 0; h < total; ++h)
+    {
+      if (!vf::mine(h))
+        continue;
+      vf::rng g(vf::seed_for(e, h));
+      bits ma, mb;
+      unsigned const density = 1 + static_cast<unsigned>(g.below(8));
+      for (unsigned i = 0; i < N; ++i)
+      {
+        ma[i] = g.below(density) == 0;
+        mb[i] = g.below(density) == 0;
+      }
+      // single members far apart: k and k + 256 (the positions an 8-bit counter cannot tell apart)
+      if (h % 3 == 0)
+      {
+        ma.reset();
+        mb.reset();
+        unsigned const k = static_cast<unsigned>(g.below(N - 256));
+        ma[k] = true;
+        mb[k + 256] = true;
+      }
+      if (!vf::begin_case("h=%llu |a|=%zu |b|=%zu", static_cast<unsigned long long>(h), ma.count(), mb.count()))
+        continue;
+      vf::sample_case(1);
+      vf::note_distinct(vf::hash_mix(vf::hash_str(e), vf::hash_mix(std::hash<bits>{}(ma), std::hash<bits>{}(mb))));
+      auto const bad = [&](char const *op, char const *cls) { vf::violation(std::string(op) + "/" + enum_name<E>::get() + "," + wn<Word>() + "/" + cls, "mismatch", vf::current_case()); };
+      unsigned const how = static_cast<unsigned>(h % 3);
+      bf const a = build(ma, how), b = build(mb, (how + 1) % 3), a2 = build(ma, (how + 2) % 3);
+      if (read(a) != ma || read(b) != mb)
+        bad("get", "members");
+      if (!(a == a2) || a != a2 || std::hash<bf>{}(a) != std::hash<bf>{}(a2))
+        bad("operator==", "eq-canonical");
+      if ((a == b) != (ma == mb))
+        bad("operator==", "value");
+      if (read(a | b) != (ma | mb))
+        bad("operator|", "members");
+      if (read(a & b) != (ma & mb))
+        bad("operator&", "members");
+      if (read(a ^ b) != (ma ^ mb))
+        bad("operator^", "members");
+      if (read(~a) != ~ma)
+        bad("operator~", "members");
+      if (fcppt::container::bitfield::is_subset_eq(a, b) != ((ma & ~mb).none()))
+        bad("is_subset_eq", "value");
+      VF_COUNT("large-enum/cases");
+    }
+  }
+};
+
 #if VF_IN_SLICE(0)
 void vf_slice_0() { all_enums<std::uint8_t>(); }
 #endif
@@ -1263,6 +1356,9 @@ void vf_slice_5()
   world<e33_u64, 33, std::uint64_t>::run();
   world<e65_u8, 65, std::uint16_t>::run();
   world<e65_u8, 65, std::uint64_t>::run();
+  large_enum<e300_u16, 300, std::uint8_t>::run();
+  large_enum<e300_u16, 300, std::uint32_t>::run();
+  large_enum<e300_u16, 300, std::uint64_t>::run();
 }
 #endif
 
